@@ -3,7 +3,9 @@ import NfcVerif.Lemmas.PeerPax
 import NfcVerif.Lemmas.PeerDispatch
 import NfcVerif.Lemmas.PeerT3
 import NfcVerif.Lemmas.PeerDecode
-import NfcVerif.Props.C11
+import NfcVerif.Lemmas.PeerT3Gen
+import NfcVerif.Lemmas.PeerSnep
+import NfcVerif.Lemmas.PduSafe
 /-!
 # Property C07: bytes from the remote peer cannot crash or hang the stack
 
@@ -27,16 +29,29 @@ found has a counter-example theorem whose witness is replayed by the L3 oracle.
 * `peer_bytes_flow`         every exception the decoders can raise ends the run loop through
                             `terminate()` with a normal return, and `connect()` returns normally
 * `flow_contains`, `connect_returns_normally`, `card_loop_contains`  the same as closure properties
+* `t3emu_total_any_services` `process_command` for ANY registered services with total callbacks, ids of any
+                            size a SENSF_RES slice can have: a response or `None`, NO exception - every
+                            `bytearray([..])` of a computed value (status flags, block count, length octets) is in range
+* `t3emu_response_framed`   every response of the emulation starts with its own length (<= 255)
+* `card_session_returns`    `_card_connect` with the emulation: any commands and any `CommunicationError`s in between
+                            end in a normal return
+* `t3emu_status_flag_octet`, `t3emu_status_flag_counterexample`  the flag `1 << (i % 8)` is an octet for every list
+                            position; `1 << i` is not from position 8 on
+* `snep_request_total`, `snep_request_safe`  `process_snep_request` on any message: a response with a header
+* `snep_serve_total`        `SnepServer._serve` on ANY sequence of fragments: ends orderly, no exception
+* `snep_request_is_c06`     the `Py`-level request handler equals the one inside C06's SNEP model
+* `snep_client_get_total`, `snep_client_put_total`  the client's response path on ANY fragments
 -/
 namespace NfcVerif.C07
 open NfcVerif NfcVerif.Peer NfcVerif.NfcDep
 
 /-! ## decoders -/
 
-/-- `pdu.decode(data)` of ANY octet string yields a PDU or `DecodeError` (C11, re-exported:
-the run loop relies on it through `llc.exchange`). -/
+/-- `pdu.decode(data)` of ANY octet string yields a PDU or `DecodeError` (the statement of C11's
+`pdu_decode_total`, proved from the same lemma `Pdu.Impl.decodeAt_safe`; the run loop relies on it
+through `llc.exchange`). -/
 theorem pdu_decode_total (b : Bytes) : Safe Pdu.OnlyDecodeError (Pdu.Impl.decode b) :=
-  NfcVerif.C11.pdu_decode_total b
+  Pdu.Impl.decodeAt_safe b 0 b.length
 
 example : Pdu.Impl.decode [0x00, 0x80, 0x00, 0x02, 0x00, 0x80] = .error .decodeError := by decide
 
@@ -125,6 +140,117 @@ theorem t3emu_counterexample :
     T3Emu.processCommand ⟨[1,2,3,4,5,6,7,8], [0,0,0,0,0,0,0,0], [0x12, 0xFC], []⟩ [] = .error .index ∧
     T3Emu.processCommand ⟨[1,2,3,4,5,6,7,8], [0,0,0,0,0,0,0,0], [0x12, 0xFC], []⟩
       [11, 6, 1, 2, 3, 4, 5, 6, 7, 8, 5] = .error .index := by decide
+
+/-- `process_command` (repaired) for ANY set of services registered with `add_service` whose callbacks
+return (`ReadOk`: a read callback hands back at most one 16 octet block or `None`; write callbacks any
+truth value), IDm / PMm / system code of whatever size the slices of SENSF_RES have, ANY application
+state and ANY command octets: a response or `None` - no `IndexError`, no `KeyError`, and no `ValueError`
+from any `bytearray([..])` built from a computed number (status flag 1 of the `A2`/`A3` error responses for
+a failing element at ANY block list position, block count of the read response, length octets). -/
+theorem t3emu_total_any_services {σ : Type} (e : PeerT3.Emu σ) (hl : PeerT3.IdsOk e) (hr : PeerT3.ReadOk e.svc)
+    (s : σ) (cmd : Bytes) : ∃ r, PeerT3.processCommandR e s cmd = .ok r :=
+  PeerT3.processCommandR_total e hl hr s cmd
+
+/-- every response the emulation hands to the device is a well-formed frame: its first octet is its
+length and fits one octet (IDm of 8 octets), for every command and any services - the reader is answered,
+never sent a frame the driver would have to refuse -/
+theorem t3emu_response_framed {σ : Type} (e : PeerT3.Emu σ) (hi : e.idm.length = 8) (s : σ) (cmd r : Bytes) (s' : σ)
+    (lg : List T3Emu.Call) (h : PeerT3.processCommandR e s cmd = .ok (some r, s', lg)) :
+    r.head? = some r.length ∧ r.length ≤ 255 :=
+  PeerT3.processCommandR_framed e hi s cmd r s' lg h
+
+/-- the services of the correspondence run satisfy the hypothesis, for every table -/
+example (tab : List (Nat × PeerT3.Mode)) : PeerT3.ReadOk (PeerT3.storeSvc tab) := PeerT3.storeSvc_readOk tab
+
+/-- eight readable blocks followed by one beyond the tag: flag 1 names list position 8 as `1 << 0` -/
+example :
+    (PeerT3.processCommandR ⟨[1,2,3,4,5,6,7,8], [0,0,0,0,0,0,0,0], [0x12, 0xFC], PeerT3.storeSvc [(9, .rw)]⟩
+      (List.replicate 32 7)
+      ([32, 6, 1,2,3,4,5,6,7,8, 1, 9, 0, 9] ++ [0x80,0, 0x80,1, 0x80,0, 0x80,1, 0x80,0, 0x80,1, 0x80,0, 0x80,1, 0x80,2])).map (·.1)
+    = .ok (some [12, 7, 1,2,3,4,5,6,7,8, 1, 0xA2]) := by decide +kernel
+
+/-- the status flag is an octet at every block list position -/
+theorem t3emu_status_flag_octet (i : Nat) (c : Nat) (hc : c < 256) :
+    PeerT3.mkBytes [PeerT3.flag1 i, c] = .ok [PeerT3.flag1 i, c] :=
+  PeerT3.mkBytes_flag i c hc
+
+/-- why the `% 8` matters: `bytearray([1 << 8, 0xA2])` raises `ValueError`, which neither
+`process_command` nor `_card_connect` handles (`card_loop_counterexample`) -/
+theorem t3emu_status_flag_counterexample : PeerT3.mkBytes [2 ^ 8, 0xA2] = .error .value := by decide
+
+/-- `connect(card=..)` with an emulated Type 3 Tag: whatever the reader sends - the activating command, any
+sequence of further commands, any `CommunicationError` of the exchange in between - `process_command` answers
+every command and `_card_connect` ends with a normal return (`terminate()` or `BrokenLinkError`), for any
+services with total callbacks.  Composition of `t3emu_total_any_services` with the handler structure. -/
+theorem card_session_returns {σ : Type} (e : PeerT3.Emu σ) (hl : PeerT3.IdsOk e) (hr : PeerT3.ReadOk e.svc) (s : σ)
+    (first : Bytes) (script : List PeerT3.CardEv) (hs : ∀ x, PeerT3.CardEv.err x ∈ script → Peer.isComm x = true) :
+    PeerT3.cardSession e s first script = .returned :=
+  PeerT3.cardSession_returns e hl hr s first script hs
+
+example : PeerT3.cardSession ⟨[1,2,3,4,5,6,7,8], [0,0,0,0,0,0,0,0], [0x12, 0xFC], PeerT3.storeSvc [(9, .rw)]⟩ (List.replicate 16 0)
+    [6, 0, 0x12, 0xFC, 0, 0] [.cmd [], .err .timeout, .cmd [10, 4, 1,2,3,4,5,6,7,8], .err .brokenLink, .err .index] = .returned := by
+  decide +kernel
+
+/-- an exception that is no `CommunicationError` does leave the loop (cf. `card_loop_counterexample`) -/
+example : PeerT3.cardSession ⟨[1,2,3,4,5,6,7,8], [0,0,0,0,0,0,0,0], [0x12, 0xFC], PeerT3.storeSvc [(9, .rw)]⟩ (List.replicate 16 0)
+    [6, 0, 0x12, 0xFC, 0, 0] [.err .value] = .raised .value := by decide +kernel
+
+/-! ## SNEP -/
+
+/-- `SnepServer.process_snep_request` on ANY message of two or more octets (`_serve` hands over six or
+more), for any decoder/application/encoder that keeps the contract `AppOk` (codes are octets, only the
+handled exceptions): a response with a complete header, never an exception - in particular the
+acceptable-length field of a GET request is only unpacked when it is there. -/
+theorem snep_request_total (app : PeerSnep.App) (h : PeerSnep.AppOk app) (data : Bytes) (hd : 2 ≤ data.length) :
+    ∃ r, PeerSnep.processRequest app data = .ok r ∧ 6 ≤ r.length ∧ r.take 1 = [0x10] :=
+  PeerSnep.processRequest_total app h data hd
+
+/-- the default server: GET is not implemented (E0h), PUT succeeds, the decoder accepts `valid` -/
+def defaultApp (valid : Bytes → Bool) : PeerSnep.App where
+  get o := if valid o then .ok (.inl 0xE0) else .error .ndefDecode
+  put o := if valid o then .ok 0x81 else .error .ndefDecode
+
+example (valid : Bytes → Bool) : PeerSnep.AppOk (defaultApp valid) := by
+  constructor
+  · intro o; simp only [defaultApp]; cases valid o <;> simp
+  · intro o; simp only [defaultApp]; cases valid o <;> simp
+
+/-- a GET request of six octets (no acceptable-length field): Bad Request, not `struct.error` -/
+example : PeerSnep.processRequest (defaultApp fun _ => true) [0x10, 1, 0, 0, 0, 0] = .ok [0x10, 0xC2, 0, 0, 0, 0] := by decide
+
+example : PeerSnep.unpackL (sliceN [0x10, 1, 0, 0, 0, 3, 1, 2, 3] 6 10) = .error .struct := by decide
+
+/-- for every message at all: the only exception is the `IndexError` of `request_data[1]` on fewer than two octets -/
+theorem snep_request_safe (app : PeerSnep.App) (h : PeerSnep.AppOk app) (data : Bytes) :
+    Safe (fun e => e = .index) (PeerSnep.processRequest app data) :=
+  PeerSnep.processRequest_safe app h data
+
+/-- `SnepServer._serve` on ANY sequence of fragments received on the connection, any send MIU and
+acceptable length: the thread ends orderly (the messages it sent are the result), it is never killed by an
+exception, and one turn of the receive loop per fragment suffices (no `OutOfFuel`). -/
+theorem snep_serve_total (cfg : PeerSnep.Cfg) (h : PeerSnep.AppOk cfg.app) (inbox : List Bytes) :
+    ∃ out, PeerSnep.serve cfg (inbox.length + 1) inbox [] = .ok out :=
+  PeerSnep.serve_total cfg h _ inbox [] (Nat.lt_succ_self _)
+
+/-- a GET announced with 100 octets of which 3 arrive before the peer leaves: Continue, then Bad Request -/
+example : PeerSnep.serve ⟨1024, 128, defaultApp fun _ => true⟩ 3 [[0x10, 1, 0, 0, 0, 100, 0, 0], [0]] [] =
+    .ok [[0x10, 0x80, 0, 0, 0, 0], [0x10, 0xC2, 0, 0, 0, 0]] := by decide
+
+/-- the request handler of property C06's SNEP model is this one (handlers within the field ranges) -/
+theorem snep_request_is_c06 (h : Snep.Handlers) (hb : PeerSnep.HandlersOk h) (data : Bytes) :
+    PeerSnep.processRequest (PeerSnep.ofHandlers h) data = (Snep.process h data >>= fun r => .ok r.1) :=
+  PeerSnep.processRequest_is_c06 h hb data
+
+/-- the response path of `SnepClient.get_octets` / `put_octets` on ANY fragments from the server:
+data, `None`/`True` or `SnepError` - no other exception -/
+theorem snep_client_get_total (acc : Nat) (inbox : List Bytes) : ∃ r, PeerSnep.getOctets acc inbox = .ok r :=
+  PeerSnep.getOctets_total acc inbox
+
+theorem snep_client_put_total (inbox : List Bytes) : ∃ r, PeerSnep.putOctets inbox = .ok r :=
+  PeerSnep.putOctets_total inbox
+
+example : PeerSnep.getOctets 1024 [[0x10, 0x81, 0, 0, 0, 3, 0xD0], [0, 0]] = .ok (.data [0xD0, 0, 0]) := by decide
+example : PeerSnep.getOctets 1024 [[0x10, 0xC0, 0, 0, 0, 0]] = .ok (.snepError 0xC0) := by decide
 
 /-! ## the link loop -/
 
